@@ -162,7 +162,9 @@ func genMesh3(rng *rand.Rand, thorough bool) meshCase3 {
 		in := flipTris(mapTris(uvSphere(3+rng.Intn(6), 4+rng.Intn(6)), func(p C3) C3 { return g.Scale3(p, k) }))
 		mc.kind, mc.tris = "nested-shells", append(out, in...)
 		if rng.Intn(2) == 0 { // a third shell inside the cavity
-			k2 := k * (0.2 + 0.5*rng.Float64())
+			// (the coarsest cavity polyhedron, 3 stacks x 4 slices, has an inradius of 0.5 of its
+			// circumradius: the island must stay well inside it, or the two shells intersect)
+			k2 := k * (0.15 + 0.25*rng.Float64())
 			mc.tris = append(mc.tris, mapTris(uvSphere(3+rng.Intn(4), 4+rng.Intn(4)), func(p C3) C3 { return g.Scale3(p, k2) })...)
 		}
 	case 4: // library icosphere (input only; orientation certified below)
